@@ -243,7 +243,7 @@ impl Req {
 }
 
 fn pay(ent: EntityId) -> Pay {
-    Pay { serial: fresh_e(), ent }
+    Pay::new(fresh_e(), ent)
 }
 
 /// perform `req` through `s`; when the event is not in `ES` this is the library's documented panic
